@@ -248,6 +248,12 @@ pub fn canon_err(e: &(dyn std::error::Error + 'static)) -> (String, String) {
         .filter(|d| !d.is_empty())
         .or_else(|| if low.contains("element") { let d: String = text.chars().skip_while(|c| !c.is_ascii_digit()).take_while(|c| c.is_ascii_digit()).collect(); if d.is_empty() { None } else { Some(d) } } else { None });
     let d_index: Option<String> = if d_map { dbg.rsplit(", ").next().map(|t| t.trim_end_matches(')').to_string()).filter(|t| !t.is_empty() && t.chars().all(|c| c.is_ascii_digit())) } else { None };
+    // a message that names the element by an ordinal word ("the third element") is read as well: first = element 0
+    let t_index: Option<String> = t_index.or_else(|| if d_map && low.contains("element") {
+        const ORD: [&str; 12] = ["first", "second", "third", "fourth", "fifth", "sixth", "seventh", "eighth", "ninth", "tenth", "eleventh", "twelfth"];
+        let found: Vec<usize> = ORD.iter().enumerate().filter(|(_, w)| low.split(|c: char| !c.is_ascii_alphabetic()).any(|t| t == **w)).map(|(k, _)| k).collect();
+        if found.len() == 1 { Some(found[0].to_string()) } else { None }
+    } else { None });
     if d_map || (t_index.is_some() && !d_first && !d_second) {
         let idx = match (&d_index, &t_index) {
             (Some(a), Some(b)) if a != b => format!("CONTRADICTION[debug says element {a}, display says element {b}]"),
